@@ -49,7 +49,7 @@ def main():
                 for (nx, ny, xmax, ymax) in grids:
                     speed = float(speeds[int(rng.integers(len(speeds)))])
                     # tower at the domain centre: offsets north-east of the reference corner
-                    ref_lat, ref_lon = [(48.0, 9.0), (51.48, -0.001), (5.6, -0.0005)][(k + len(obs)) % 3]      # incl. origins just west of Greenwich
+                    ref_lat, ref_lon = [(48.0, 9.0), (51.48, -0.001), (5.6, -0.0005), (0.0, 9.0), (48.0, 0.0)][(k + len(obs)) % 5]      # incl. origins just west of Greenwich, exactly on the equator, exactly on the Greenwich meridian
                     dlat = math.degrees((ymax / 2) / R)
                     dlon = math.degrees((xmax / 2) / (R * math.cos(math.radians(ref_lat))))
                     # the four quadrants of the lat/lon -> x,y conversion are observed on extra towers (no solve needed)
